@@ -252,6 +252,44 @@ Proof.
   by rewrite -signr_odd; case: (odd j); rewrite ?expr1 ?expr0 /= ?oppr0 mul0r.
 Qed.
 
+(* ---- invert_a / invert_b: conjugated input tables compute the binding with the inverse ------------ *)
+Definition half_im_opt (inv : bool) a (k : nat) : R := if inv then - half_im a k else half_im a k.
+
+Definition net_term_inv (ia ib : bool) a b (k m : nat) : R :=
+  wt k * ((half_re a k * half_re b k - half_im_opt ia a k * half_im_opt ib b k) * (tab_re k m / d%:R)
+          - (half_re a k * half_im_opt ib b k + half_im_opt ia a k * half_re b k) * (- tab_im k m / d%:R)).
+
+Definition cconv_net_inv ia ib a b (m : nat) : R := \sum_(0 <= k < (d./2).+1) net_term_inv ia ib a b k m.
+
+Lemma size_hrr_invert a : size (hrr_invert a) = size a.
+Proof. by rewrite /hrr_invert size_mkvec. Qed.
+
+Lemma half_re_invert a k : size a = d -> (k < d)%N -> half_re (hrr_invert a) k = half_re a k.
+Proof.
+  move=> sa lt; pose k' := Ordinal lt.
+  by rewrite -[k]/(nat_of_ord k') -!spectrum_re (spectrum_invert iota w_d) // spectrum_conj Re_conj.
+Qed.
+
+Lemma half_im_invert a k : size a = d -> (k < d)%N -> half_im (hrr_invert a) k = - half_im a k.
+Proof.
+  move=> sa lt; pose k' := Ordinal lt.
+  by rewrite -[k]/(nat_of_ord k') -!spectrum_im (spectrum_invert iota w_d) // spectrum_conj Im_conj.
+Qed.
+
+Theorem cconv_net_inv_is_binding ia ib a b (m : 'I_d) :
+  size a = d -> size b = d ->
+  cconv_net_inv ia ib a b m
+  = vnth (hrr_bind_core (if ia then hrr_invert a else a) (if ib then hrr_invert b else b)) m.
+Proof.
+  move=> sa sb.
+  rewrite -cconv_net_is_binding; last by case: ia; rewrite ?size_hrr_invert.
+  rewrite /cconv_net_inv /cconv_net !big_nat; apply: eq_bigr => k /andP [_ kh].
+  have kd : (k < d)%N.
+    by apply: (leq_trans kh); rewrite -divn2 ltn_Pdiv.
+  rewrite /net_term_inv /net_term /half_im_opt.
+  by case: ia; case: ib; rewrite ?half_re_invert ?half_im_invert.
+Qed.
+
 End HrrNet.
 
 (* the hypotheses are satisfiable: d = 2, w = -1 = exp(-2 pi i / 2) *)
